@@ -139,35 +139,88 @@ func (b *BinaryExpression) SQL() string {
 	if b == nil {
 		return ""
 	}
+	// The chain of left-nested binary expressions (a + b + c ..., x = 1 AND y = 2 AND ...) is written
+	// into one builder from its leftmost operand outwards. Rendering the left operand to a string and
+	// formatting it into a new string at every level copies the text once per operator, which is
+	// quadratic in the length of the chain.
+	spine := []*BinaryExpression{b} // outermost first
+	for {
+		l, ok := spine[len(spine)-1].Left.(*BinaryExpression)
+		if !ok || l == nil {
+			break
+		}
+		spine = append(spine, l)
+	}
+	sb := getBuilder()
+	defer putBuilder(sb)
+	shapes := make([]binaryShape, len(spine))
+	wrapped := make([]bool, len(spine))
+	for i, n := range spine {
+		shapes[i] = n.shape()
+		if i > 0 {
+			// Operands are parenthesised when they bind looser than the operator does on that side,
+			// so that re-parsing the text gives the same tree.
+			wrapped[i] = exprPrec(n) < shapes[i-1].leftCtx
+			if wrapped[i] {
+				sb.WriteByte('(')
+			}
+		}
+		sb.WriteString(shapes[i].prefix)
+	}
+	last := len(spine) - 1
+	sb.WriteString(operandSQL(spine[last].Left, shapes[last].leftCtx))
+	for i := last; i >= 0; i-- {
+		sb.WriteString(shapes[i].middle)
+		if shapes[i].hasRight {
+			sb.WriteString(operandSQL(spine[i].Right, shapes[i].rightCtx))
+		}
+		sb.WriteString(shapes[i].suffix)
+		if wrapped[i] {
+			sb.WriteByte(')')
+		}
+	}
+	return sb.String()
+}
+
+// binaryShape is the text of a binary expression around its operands:
+// prefix left middle [right] suffix, with the context levels of the two operands.
+type binaryShape struct {
+	prefix, middle, suffix string
+	hasRight               bool
+	leftCtx, rightCtx      int
+}
+
+func (b *BinaryExpression) shape() binaryShape {
 	op := b.Operator
 	if b.CustomOp != nil {
 		op = b.CustomOp.String()
 	}
-
 	upperOp := strings.ToUpper(op)
-
-	// Operands are parenthesised when they bind looser than this operator does on that side,
-	// so that re-parsing the text gives the same tree.
 	_, leftCtx, rightCtx := binaryOperatorPrec(upperOp)
-	left := operandSQL(b.Left, leftCtx)
-	right := operandSQL(b.Right, rightCtx)
+	sh := binaryShape{hasRight: true, leftCtx: leftCtx, rightCtx: rightCtx}
 
 	// Handle IS NULL / IS NOT NULL (right side is NULL literal)
 	if upperOp == "IS NULL" || upperOp == "IS NOT NULL" {
-		return fmt.Sprintf("%s %s", left, upperOp)
+		sh.middle = " " + upperOp
+		sh.hasRight = false
+		return sh
 	}
 
 	// Handle special operators like LIKE, ILIKE, SIMILAR TO
 	if b.Not {
 		switch upperOp {
 		case "LIKE", "ILIKE", "SIMILAR TO":
-			return fmt.Sprintf("%s NOT %s %s", left, upperOp, right)
+			sh.middle = " NOT " + upperOp + " "
 		default:
-			return fmt.Sprintf("NOT (%s %s %s)", left, op, right)
+			sh.prefix = "NOT ("
+			sh.middle = " " + op + " "
+			sh.suffix = ")"
 		}
+		return sh
 	}
 
-	return fmt.Sprintf("%s %s %s", left, op, right)
+	sh.middle = " " + op + " "
+	return sh
 }
 
 func (u *UnaryExpression) SQL() string {
